@@ -368,7 +368,7 @@ def loop_bound(B, comp_blocks):
                 continue
             break
         if o[0] == 'agg' and o[1].get('adt', '').endswith('ops::range::Range') and len(o[1]['ops']) == 2:
-            return ('range', canon(B, o[1]['ops'][1]))
+            return ('range', canon(B, o[1]['ops'][1], 0, (o[2], None)))      # as it is where the range is built
         if o[0] in ('arg', 'local', 'call', 'proj'):
             return ('iter', o)
     return None
